@@ -176,6 +176,9 @@ pub fn exec(op: &str, t: &mut Toks, cx: &mut Ctx) -> Option<String> {
                 let r: f64 = t.get();
                 let (mut out, res) = all_variants(&a, &b, &r, cx);
                 out.push_str(&format!(" {} {} {}", (r * a).wr(), f64_hex(a.abs()), f64_hex(a.arg())));
+                // real scalar on the LEFT: r * a is the componentwise product (one rounding per component), hence bit-identical to a * r
+                { let l = r * a; let rr = a * r; let eqb = |x: f64, y: f64| x.to_bits() == y.to_bits() || (x.is_nan() && y.is_nan());
+                  cx.check(eqb(l.real, rr.real) && eqb(l.imag, rr.imag) && eqb(l.real, r * a.real) && eqb(l.imag, r * a.imag), "real * complex is not the componentwise product / differs from complex * real"); }
                 let names = ["add", "sub", "mul", "div"];
                 for k in 0..4 { cx.check(same_bits(&res[k], &res[4 + k]), &format!("{}_assign not bit-identical to binary {}", names[k], names[k])); }
                 for k in 0..4 { cx.check(same_bits(&res[8 + k], &res[12 + k]), &format!("{}_real_assign not bit-identical to binary", names[k])); }
